@@ -230,6 +230,12 @@ func c18Identities(c *runner.Ctx, idx uint64) {
 		sum := mustT(term.Binary(sc, "+", mustT(term.Len(sc, left)), mustT(term.Len(sc, right))))
 		c18Compare(c, c18Pair{"slice-partition-len", sum, mustT(term.Len(sc, seq))}, styles, seeds, nil)
 		c18Concat(c, seq, left, right, styles, seeds)
+		if r.Chance(1, 4) {
+			// a Go array held by the environment (the typed terms know slices only)
+			a, k := r.Pick([]string{"Arr3", "ArrS", "It.Vals", "[Arr3, Arr3][0]"}), r.Intn(5)
+			c18ConcatSrc(c, a, fmt.Sprintf("%s[:%d]", a, k), fmt.Sprintf("%s[%d:]", a, k), styles[:2], seeds[:2])
+			c.Count("go_array_partitions", 1)
+		}
 	case 10:
 		s := (&term.Gen{R: r, Sc: sc, PureOnly: true}).Of(term.StrT, 1+r.Intn(6))
 		i := term.Int(r.Intn(9))
@@ -305,7 +311,10 @@ func c18Filter(c *runner.Ctx, xs, p, filt, mapped *term.Term, styles []int, seed
 
 // c18Concat: xs[:i] ++ xs[i:] == xs (harness-side concatenation).
 func c18Concat(c *runner.Ctx, seq, left, right *term.Term, styles []int, seeds []uint64) {
-	ss, ls, rs := term.Print(seq, term.PrintOpts{}), term.Print(left, term.PrintOpts{}), term.Print(right, term.PrintOpts{})
+	c18ConcatSrc(c, term.Print(seq, term.PrintOpts{}), term.Print(left, term.PrintOpts{}), term.Print(right, term.PrintOpts{}), styles, seeds)
+}
+
+func c18ConcatSrc(c *runner.Ctx, ss, ls, rs string, styles []int, seeds []uint64) {
 	c.SetAdd("identities", "slice-partition-concat")
 	for i := range styles {
 		e := envs.New(&envs.Log{})
@@ -323,7 +332,7 @@ func c18Concat(c *runner.Ctx, seq, left, right *term.Term, styles []int, seeds [
 			continue
 		}
 		lv, rv, sv := reflect.ValueOf(ol.Val), reflect.ValueOf(or.Val), reflect.ValueOf(os.Val)
-		if lv.Kind() != reflect.Slice || rv.Kind() != reflect.Slice || sv.Kind() != reflect.Slice {
+		if lv.Kind() != reflect.Slice || rv.Kind() != reflect.Slice || (sv.Kind() != reflect.Slice && sv.Kind() != reflect.Array) {
 			continue
 		}
 		var cat []string
